@@ -241,6 +241,7 @@ pub(crate) struct Out {
     conns: usize,
     max_live: usize,
     pub(crate) steps: u64,
+    pub(crate) sim_ms: u64,
     pub(crate) stuck: Option<String>,
     pub(crate) tape: Vec<u32>,
     stats: BTreeMap<&'static str, u64>,
@@ -486,6 +487,7 @@ pub(crate) async fn run_world(sc: ClScenario, tape: Tape, narrative: bool) -> Ou
     out.conns = sh.socks.borrow().len();
     out.max_live = *sh.max_live.borrow();
     out.tape = tape.borrow().record.clone();
+    out.sim_ms = ex.now_ms();
     drop(ex);
     tokio::task::yield_now().await;
     out
@@ -785,7 +787,7 @@ impl Rig for ClRig {
             stats,
             nontrivial: out.outcomes.iter().filter(|o| o.finished).count() >= 1 && out.conns >= 1,
             states: vec![],
-            sim_ms: 0,
+            sim_ms: out.sim_ms,
             steps: out.steps,
             tape: out.tape.clone(),
             narrative: narr,
